@@ -6,6 +6,33 @@ ROOT = os.path.dirname(os.path.dirname(os.path.abspath(__file__)))
 ALL = ["C%02d" % i for i in range(1, 21)]
 
 CLAIMED = {
+ "C10": dict(
+  text="Lean 4 theorems over Model.Sync, a labelled transition system of the write semaphore, the connection-control semaphore, the "
+       "Online/Offline signals, the read routine and ANY number of concurrent writers and closers (invariant proved by induction over every "
+       "interleaving): the read routine always has an enabled step to leave a failed connection (the semaphore never holds a value toOffline "
+       "cannot take), whoever holds the write lock can give it back in one own step, a failed write closes the connection and leaves the "
+       "pending marker after which toOffline and redial are enabled, Online/live after a successful connect, one writer at a time; plus the "
+       "ReadBackoff bounds on the modelled formula and the no-wait write of the read routine (F4 repair). Scenarios with goroutines blocked at "
+       "I/O boundaries (Dialer, CONNACK, conn.Write interrupted by broker close) run against the real client with hang/busy-loop detection.",
+  design="6/C10", technique="Lean 4 proof (LTS invariants over all interleavings, any number of actors) + differential correspondence at I/O boundaries",
+  note="partial: A-atomic (one step = one channel operation); the Sync skeleton is tied to the code by the session scenarios only; fairness, timers and wall-clock are outside; ReadBackoff is not compared with the implementation"),
+ "C11": dict(
+  text="Lean 4 theorems: endTx hands out exactly the transaction registered under the identifier, startTx never hands out zero, a foreign "
+       "space or an identifier still registered, breakAll releases every registered request with exactly one ErrBreak and empties the table, "
+       "the ping slot answers its owner, a second Ping is refused at once. Concurrent Subscribe/Unsubscribe/Ping calls with responses in any "
+       "order, losses, quits and Close run against the real client; each SubscribeError is checked against the SUBACK sent for that request's "
+       "identifier and every request must have returned after the closing epilogue.",
+  design="6/C11", technique="Lean 4 proof (transaction-table lemmas) + differential correspondence with concurrent calls parked by the harness",
+  note="partial: the Ping slot hand-over race (F7) needs preemption between two statements and is a known finding; startTx termination within its fuel (pigeonhole) is not proved"),
+ "C12": dict(
+  text="Lean 4 theorems over Model.Sync for every interleaving and any number of concurrent Close/Disconnect calls: Online and Offline are "
+       "never both released, after the semaphores are closed the client is offline for good (stable under every step), at most one closer is "
+       "past connSem and never together with a connecting reader (no double close), and a closer holding connSem can always finish within "
+       "three steps - its own plus one release by the lock holder (no deadlock). Close/Disconnect in every state the harness can hold a "
+       "goroutine in (never connected, in the Dialer, awaiting CONNACK - the F6 deadlock, now repaired -, writer inside conn.Write, offline, "
+       "closed, repeated) run against the real client; afterwards every method must return ErrClosed.",
+  design="6/C12", technique="Lean 4 proof (LTS invariants + bounded reachability of closure) + differential correspondence at I/O boundaries",
+  note="partial: A-atomic; promptness = returns while all other goroutines are at rest (no wall-clock); goroutine/connection leaks not measured; termCallbacks flushers not in the LTS"),
  "C19": dict(
   text="Lean 4 theorems over Save/Delete as system-call programs on a directory: for every previous content, value, buffer split and stop "
        "point (before/after any call, inside a data write after any byte count) the key loads as its complete old or complete new value and "
